@@ -352,6 +352,45 @@ def gen_batch(rng):
     return {"type": "flux", "host": "x", "bank": "b", "queue": "q", "version": "0.49.0", "allow_nan": False}
 
 
+# batch-block values of every type the specification loader (yaml FullLoader) can produce
+BATCH_EXTRAS = [
+    ("tuple", "!!python/tuple [1, two, 3.5]"), ("omap", "!!omap [a: 1, b: 2]"), ("pairs", "!!pairs [a: 1, a: 2]"),
+    ("set", "!!set {a, b, 3}"), ("date", "2001-12-14"), ("timestamp", "2001-12-14T21:59:43.10-05:00"),
+    ("timestamp2", "2001-12-14 21:59:43"), ("binary", "!!binary aGVsbG8gd29ybGQ="), ("null", "~"), ("inf", ".inf"),
+    ("nested", "{k: [1, {z: !!python/tuple [a, [b, ~]]}, 2001-01-01], m: !!set {1: null}}"),
+    ("bools", "[yes, no, true, on]"), ("keys", "{1: a, 2.5: b}"), ("text", "\"line1\\nline2 \\u00e9\""),
+    ("bigint", "123456789012345678901234567890"), ("numbers", "[0x1f, 1_000, 1e3, -0.0, 1.5e-7]"),
+    ("emptyish", "[[], {}, '', ~]"),
+]
+
+
+def effective_batch(case):
+    """the batch block as the specification loader hands it to run_study (typed values)"""
+    import yaml
+    b = dict(case["batch"])
+    for key, text in case.get("batch_extra", []):
+        b.update(yaml.load("x_%s: %s" % (key, text), yaml.FullLoader))
+    return b
+
+
+def canon(x):
+    """order-free, type-preserving, JSON-able rendering of a batch block"""
+    import datetime
+    if isinstance(x, dict):
+        return ["dict", sorted(([canon(k), canon(v)] for k, v in x.items()), key=repr)]
+    if isinstance(x, (set, frozenset)):
+        return ["set", sorted((canon(v) for v in x), key=repr)]
+    if isinstance(x, tuple):
+        return ["tuple", [canon(v) for v in x]]
+    if isinstance(x, list):
+        return ["list", [canon(v) for v in x]]
+    if isinstance(x, bytes):
+        return ["bytes", x.hex()]
+    if isinstance(x, (datetime.date, datetime.datetime)):
+        return [type(x).__name__, x.isoformat()]
+    return [type(x).__name__, repr(x)]
+
+
 def gen_handoff_case(rng, c08):
     stream = rng.choice(["valid", "valid", "valid", "prefix", "exotic"])
     case = c08.gen_case(rng, stream)
@@ -374,9 +413,11 @@ def gen_handoff_case(rng, c08):
     case["cfg"] = {"throttle": rng.choice([0, 1, 2, 3, 7]), "attempts": rng.choice([1, 2, 3, 4]),
                    "dry": rng.random() < 0.35, "use_tmp": rng.random() < 0.4, "hash_ws": rng.random() < 0.5}
     case["batch"] = gen_batch(rng)
+    if rng.random() < 0.5:
+        case["batch_extra"] = [list(x) for x in rng.sample(BATCH_EXTRAS, rng.randint(1, 3))]
     if case["params"] and stream != "exotic" and rng.random() < 0.3:
-        case["pgen_kind"] = rng.choice(["sub", "cls", "fn"])
-        if case["pgen_kind"] == "cls":      # instances of a class of the generator file; the case lists their str()
+        case["pgen_kind"] = rng.choice(PGEN_KINDS)
+        if case["pgen_kind"] in ("cls", "fmt"):      # instances of a class of the generator file; the case lists their str()
             p = case["params"][0]
             p["values"] = [v if isinstance(v, (int, str)) and not isinstance(v, bool) else str(v) for v in p["values"]]
     return case
@@ -385,8 +426,8 @@ def gen_handoff_case(rng, c08):
 def spec_yaml(case, c08, with_params):
     import yaml
     spec = {"description": {"name": STUDY_NAME, "description": "generated"}}
-    if case["batch"] != {"type": "local"}:
-        spec["batch"] = case["batch"]
+    if case["batch"] != {"type": "local"} or case.get("batch_extra"):
+        spec["batch"] = effective_batch(case)
     study = []
     for st in case["steps"]:
         study.append({"name": st["name"], "description": st["description"], "run": dict(st["run"])})
@@ -397,31 +438,68 @@ def spec_yaml(case, c08, with_params):
     return yaml.safe_dump(spec, default_flow_style=False, sort_keys=False)
 
 
+PGEN_KINDS = ["sub", "cls", "fn", "dyn", "glob", "fmt", "chain", "closure"]
+
+
 def pgen_text(case):
-    """The custom generator file.  `pgen_kind` (None | 'sub' | 'cls' | 'fn'): the file additionally
-    defines -- and leaves reachable from the study -- a ParameterGenerator subclass / a value class
-    (values are instances; the case lists their str()) / a helper function and a lambda."""
+    """The custom generator file.  `pgen_kind` (None or one of PGEN_KINDS): the file additionally
+    defines -- and leaves reachable from the study -- things dill has to store BY VALUE (the file is
+    not importable by the conductor); str() of every value is the plain value the case lists:
+      sub      a ParameterGenerator subclass            cls  a value class
+      fn       a helper function and a lambda kept on the generator
+      dyn      a value class whose __str__ eval()s an expression over module-level constants / imports
+      glob     ... reaches the module-level table through globals()[...]
+      fmt      a value class with __str__ / __repr__ / __format__
+      chain    a helper calling another module-level helper that reads a module-level constant
+      closure  values rendered by closures / lambdas over module-level names"""
     kind = case.get("pgen_kind")
-    lines = ["from maestrowf.datastructures.core import ParameterGenerator", "", "",
+    p0 = case["params"][0]["values"] if case["params"] else []
+    lines = ["import math", "from maestrowf.datastructures.core import ParameterGenerator", "", "",
+             "TABLE = %r" % (list(p0),), "ONE = 1", "", "",
              "class Level(object):", "    def __init__(self, v):", "        self.v = v", "",
              "    def __str__(self):", "        return str(self.v)", "", "",
+             "class Dyn(object):", "    def __init__(self, src):", "        self.src = src", "",
+             "    def __str__(self):", "        return str(eval(self.src))", "", "",
+             "class Glob(object):", "    def __init__(self, i):", "        self.i = i", "",
+             "    def __str__(self):", "        return str(globals()['TABLE'][self.i * globals()['ONE']])", "", "",
+             "class Fmt(object):", "    def __init__(self, v):", "        self.v = v", "",
+             "    def __str__(self):", "        return '%s' % (self.v,)", "",
+             "    def __repr__(self):", "        return 'Fmt(%r)' % (self.v,)", "",
+             "    def __format__(self, spec):", "        return format(str(self.v), spec)", "", "",
+             "class Lazy(object):", "    def __init__(self, f):", "        self.f = f", "",
+             "    def __str__(self):", "        return str(self.f())", "", "",
              "def scale(x):", "    return x", "", "",
+             "def pick(i):", "    return TABLE[i * ONE]", "", "",
+             "def outer(i):", "    return pick(int(math.floor(i + 0.5)))", "", "",
+             "def make(k):", "    def f():", "        return TABLE[k]", "    return f", "", "",
              "class MyGen(ParameterGenerator):", "    def __init__(self):",
              "        super(MyGen, self).__init__()", "        self.note = 'own subclass'", "", "",
              "def get_custom_generator(env, **kwargs):",
              "    p = %s()" % ("MyGen" if kind == "sub" else "ParameterGenerator")]
     for n, p in enumerate(case["params"]):
         vals = repr(list(p["values"]))
-        if kind == "cls" and n == 0:
-            vals = "[%s]" % ", ".join("Level(%r)" % v for v in p["values"])
-        elif kind == "fn" and n == 0:
-            vals = "[%s]" % ", ".join("scale(%r)" % v for v in p["values"])
+        k = range(len(p["values"]))
+        if n == 0:
+            if kind == "cls":
+                vals = "[%s]" % ", ".join("Level(%r)" % v for v in p["values"])
+            elif kind == "fn":
+                vals = "[%s]" % ", ".join("scale(%r)" % v for v in p["values"])
+            elif kind == "dyn":
+                vals = "[%s]" % ", ".join("Dyn('TABLE[%d * int(math.sqrt(ONE))]')" % i for i in k)
+            elif kind == "glob":
+                vals = "[%s]" % ", ".join("Glob(%d)" % i for i in k)
+            elif kind == "fmt":
+                vals = "[%s]" % ", ".join("Fmt(%r)" % v for v in p["values"])
+            elif kind == "chain":
+                vals = "[%s]" % ", ".join("Lazy(lambda i=%d: outer(i))" % i for i in k)
+            elif kind == "closure":
+                vals = "[%s]" % ", ".join(("Lazy(make(%d))" if i % 2 == 0 else "Lazy(lambda: TABLE[%d])") % i for i in k)
         if p.get("name"):
             lines.append("    p.add_parameter(%r, %s, %r, %r)" % (p["key"], vals, p.get("label"), p["name"]))
         else:
             lines.append("    p.add_parameter(%r, %s, %r)" % (p["key"], vals, p.get("label")))
-    if kind == "fn":
-        lines += ["    p.helper = scale", "    p.post = lambda x: scale(x)"]
+    if kind in ("fn", "chain"):
+        lines += ["    p.helper = outer", "    p.post = lambda x: scale(x)"]
     lines.append("    return p")
     return "\n".join(lines) + "\n"
 
@@ -460,7 +538,7 @@ def _observe(case, study, dag, root, c08):
     o = c08.observe_dag(case, study, dag, root)
     o["cfg"] = [int(dag._submission_throttle), int(dag._submission_attempts), bool(dag.dry_run),
                 bool(getattr(dag, "_tmp_dir", ""))]
-    o["adapter"] = _norm(dag._adapter)
+    o["adapter"] = canon(dag._adapter)
     return o
 
 
@@ -490,11 +568,11 @@ def sub_store(inp, outp):
                                   restart_limit=case["rlimit"], use_tmp=cfg["use_tmp"], hash_ws=cfg["hash_ws"],
                                   dry_run=cfg["dry"])
             study.setup_environment()
-            batch = dict(case["batch"])
+            batch = effective_batch(case)
             Conductor.store_study(study)
             Conductor.store_batch(study.output_path, batch)
             r["stored"] = True
-            r["batch"] = _norm(batch)
+            r["batch"] = canon(batch)
         except Exception as e:
             r.update({"ok": False, "err": 5, "exc": type(e).__name__, "msg": str(e)[:300]})
             res.append(r)
@@ -509,7 +587,7 @@ def sub_store(inp, outp):
             continue
         try:
             r.update(_observe(case, study, dag, root, c08))
-            r["batch"] = _norm(batch)
+            r["batch"] = canon(batch)
         except Exception as e:
             r.update({"ok": False, "err": 3, "exc": type(e).__name__, "msg": str(e)[:200]})
         try:
@@ -521,8 +599,13 @@ def sub_store(inp, outp):
         if job.get("spec"):
             try:
                 from maestrowf.specification import YAMLSpecification
-                YAMLSpecification.load_specification(job["spec"])
+                sp_ = YAMLSpecification.load_specification(job["spec"])
                 r["yaml_ok"] = True
+                # what run_study hands over on the command-line path: the batch block as the specification
+                # loader delivers it (it turns tuples into lists), type defaulting to local
+                sb = dict(sp_.batch) if sp_.batch else {"type": "local"}
+                sb.setdefault("type", "local")
+                r["spec_batch"] = canon(sb)
             except Exception as e:
                 r["yaml_exc"] = type(e).__name__
         res.append(r)
@@ -545,7 +628,7 @@ def sub_load(root, casef, outp, real_root=None, cwd=None):
         from maestrowf.conductor import Conductor
         study = Conductor.load_study(spelled)
         batch = Conductor.load_batch(spelled)
-        r["batch"] = _norm(batch)
+        r["batch"] = canon(batch)
     except Exception as e:
         r.update({"ok": False, "err": 6, "exc": type(e).__name__, "msg": str(e)[:300]})
         json.dump(r, open(outp, "w"))
@@ -624,6 +707,11 @@ COMPARE_KEYS = ("ok", "err", "exc", "used", "nodes", "cfg", "adapter", "batch")
 
 
 def diff_obs(a, b, root_a, root_b):
+    if bool(a.get("ok")) != bool(b.get("ok")):
+        bad = b if a.get("ok") else a
+        return "%s staged, %s could not be staged: %s: %s" % (
+            "the in-memory study" if a.get("ok") else "the re-loaded study",
+            "the re-loaded study" if a.get("ok") else "the in-memory study", bad.get("exc"), str(bad.get("msg"))[:300])
     a = json.loads(json.dumps({k: a.get(k) for k in COMPARE_KEYS}).replace(root_a, "/R"))
     b = json.loads(json.dumps({k: b.get(k) for k in COMPARE_KEYS}).replace(root_b, "/R"))
     if a == b:
@@ -784,9 +872,11 @@ def handoff_part(ck, cases, c08, tag="C18_handoff"):
     lits, lit_jobs = [], []
     for job in jobs:
         case, a, b = job["case"], job["A"], job["B"]
-        slim = {k: case[k] for k in ("rlimit", "params", "steps", "cfg", "batch", "stream", "pgen_kind") if k in case}
+        slim = {k: case[k] for k in ("rlimit", "params", "steps", "cfg", "batch", "batch_extra", "stream", "pgen_kind") if k in case}
         dist["stream:" + case["stream"]] += 1
         dist["batch:" + case["batch"]["type"]] += 1
+        for key, _t in case.get("batch_extra", []):
+            dist["batch_value:" + key] += 1
         for p in case["params"]:
             kinds = sorted({type(v).__name__ for v in p["values"]})
             dist["values:" + "+".join(kinds or ["none"])] += 1
@@ -846,7 +936,8 @@ def handoff_part(ck, cases, c08, tag="C18_handoff"):
             dist["instances:%02d" % min(len(a["nodes"]) - 1, 20)] += 1
         c = job.get("C")
         if c is not None:
-            dc = diff_obs(a, c, job["root"], c.get("root", job["root"]))
+            a_cli = dict(a, batch=a["spec_batch"], adapter=a["spec_batch"]) if a.get("spec_batch") else a
+            dc = diff_obs(a_cli, c, job["root"], c.get("root", job["root"]))
             if c.get("err") in (6, 7, 9):
                 ck.violation("hand-off through the command line (`maestro run -n` then a fresh load) failed: %s: %s"
                              % (c.get("exc"), c.get("msg")), slim)
